@@ -81,6 +81,7 @@ ATOMS_COMMON = {
     "parameters.getMaxFirstWaitingTimeSeconds()": ("maxfw", Z),
     "parameters.getMaxTransferWalkingTravelTimeSeconds()": ("maxtr", Z),
     "footpathTravelTime": ("w", Z),
+    "parameters.getMinWaitingTimeSeconds()": ("qminw", Z),
     "MAX_INT": ("MAX_INT", Z),
 }
 ATOMS_FWD = dict(ATOMS_COMMON, **{
@@ -289,7 +290,31 @@ class Parser:
         return True
 
 
-def translate(text, atoms, ty):
+def resolve_locals(text, atoms, body, depth=3):
+    """A guard may mention a local variable the atom table does not know (a hoisted sub-expression, e.g.
+    `earliestBoardingTime`): if the function body assigns it exactly once (`[type] name = expr;`), the definition is
+    substituted, up to `depth` levels, so that the guard is still translated and compared instead of falling back."""
+    for _ in range(depth):
+        try:
+            tokenize(text, atoms)
+            return text
+        except Untranslatable as e:
+            m = re.match(r"unknown text at: ([A-Za-z_][A-Za-z0-9_]*)", str(e))
+            if not m or body is None:
+                raise
+            name = m.group(1)
+            flat = "".join(body.split())
+            defs = re.findall(r"(?:^|[;{}]|int|const|auto|unsigned|long|short|bool)" + re.escape(name) + r"=(?!=)([^;]*);", flat)
+            defs = [d for d in defs if name not in d]
+            if len(set(defs)) != 1:
+                raise Untranslatable("unknown identifier %s (%d candidate definitions)" % (name, len(set(defs))))
+            text = re.sub(r"(?<![A-Za-z0-9_.>])" + re.escape(name) + r"(?![A-Za-z0-9_(])", "(" + defs[0] + ")", text)
+    tokenize(text, atoms)
+    return text
+
+
+def translate(text, atoms, ty, body=None):
+    text = resolve_locals(text, atoms, body)
     p = Parser(tokenize(text, atoms))
     e = p.parse()
     if e[1] != ty:
@@ -304,7 +329,7 @@ def translate(text, atoms, ty):
 # same type and the tie lemmas in Proofs/GuardsTie.v do not depend on what the translator found.
 
 FWD_ARGS = {
-    "first":   [("cdep", Z), ("kdep", Z), ("minacc", Z)],
+    "first":   [("cdep", Z), ("kdep", Z), ("minacc", Z), ("qminw", Z)],
     "enabled": [("disabled", B)],
     "break":   [("reached", B), ("maxegr", Z), ("tent", Z), ("cdep", Z), ("kdep", Z), ("maxtt", Z)],
     "accessed": [("maxfw", Z), ("acc_found", B), ("acc_time", Z), ("step_has_enter", B)],
@@ -341,7 +366,7 @@ FWD_HAND = {
     "best_ok": "((t >=? 0) && (t - kdep <=? maxtt) && (t <? best) && (t <? MAX_INT))",
 }
 REV_ARGS = {
-    "first":   [("carr", Z), ("karr", Z), ("minegr", Z)],
+    "first":   [("carr", Z), ("karr", Z), ("minegr", Z), ("qminw", Z)],
     "enabled": [("usable", B), ("disabled", B)],
     "break":   [("reached", B), ("maxacc", Z), ("tent", Z), ("carr", Z), ("karr", Z), ("maxtt", Z)],
     "reach":   [("exit_some", B), ("tarr", Z), ("carr", Z)],
@@ -441,7 +466,7 @@ def gen_copy(prefix, direction, src, spec, args, hand, atoms, report):
         expr, origin = None, "hand"
         if text is not None:
             try:
-                expr, used = translate(text, atoms, ty)
+                expr, used = translate(text, atoms, ty, body)
                 names = [a for a, _ in arglist]
                 bad = [v for v in used if v not in names]
                 if bad:
@@ -507,6 +532,8 @@ def gen_alt(report):
 ATOMS_ENTRY = {
     "departureTimeSeconds": ("kdep", Z), "arrivalTimeSeconds": ("karr", Z),
     "minAccessTravelTime": ("minacc", Z), "minEgressTravelTime": ("minegr", Z),
+    "parameters.getMinWaitingTimeSeconds()": ("qminw", Z),
+    "maxAccessTravelTime": ("maxacc", Z), "maxEgressTravelTime": ("maxegr", Z),
 }
 
 
@@ -540,12 +567,12 @@ def gen_entry(report, fsrc, rsrc):
             md = re.search(r"int" + var + r"=(.*?);", body)
             if md and var in arg:
                 arg = arg.replace(var, "(" + md.group(1) + ")")
-            e, used = translate(arg, ATOMS_ENTRY, Z)
+            e, used = translate(arg, ATOMS_ENTRY, Z, fn_body(src, sig))
             expr, origin = e, "source"
         except (Untranslatable, ValueError) as e:
             report["fallback"].append("%s_entry_hour: %s" % (prefix, e))
         report["guards"][prefix + "_entry_hour"] = origin
-        defs.append("Definition gen_%s_entry_hour (kdep karr minacc minegr : Z) : Z :=\n  %s.   (* %s *)" % (prefix, expr, origin))
+        defs.append("Definition gen_%s_entry_hour (kdep karr minacc minegr qminw maxacc maxegr : Z) : Z :=\n  %s.   (* %s *)" % (prefix, expr, origin))
     return defs
 
 
